@@ -262,5 +262,27 @@ CHECKS["C31"] = dict(
     design_ref="DESIGN.md §5 C31", note=SEM_NOTE + " CPT entries must be multiples of 0.1; <= 8 non-deterministic CPTs.",
     technique="translation validation of the exported network by TLC against the TLA+ distribution semantics")
 
+CHECKS["C27"] = dict(
+    category="exploration",
+    text="Every builtin the engine registers (list read at run time; I/O and file-system builtins excluded) is called with "
+         "argument shape vectors drawn from the term algebra of TermAlgebra.tla (variable, atom, integers, float, string, proper / "
+         "partial list, compound, conjunction, callable and undefined goals); generated programs are mutated token-wise (delete, "
+         "duplicate, swap, insert, replace) and parsed and run; targeted user errors (undefined predicates, non-ground "
+         "probabilistic clauses, invalid probabilities). Verdict: result or ProbLogError subclass; any other exception class is a "
+         "violation identified by exception class and raise site.",
+    design_ref="DESIGN.md §5 C27", note="Exploration over a structured, bounded input set (not all strings). The spec contributes the "
+    "shape classes; the verdict (exception class is a ProbLogError) is evaluated by the harness.",
+    technique="spec-guided generation (term shape classes of the TLA+ term algebra) with an exception-class oracle")
+
+CHECKS["C17"] = dict(
+    category="exploration",
+    text="ASTs over the operator table (33 binary and 3 prefix operators, compounds, lists, quoted atoms, strings, numbers, "
+         "variables, clauses) are written as fully parenthesised text, parsed, printed with str() and parsed again; TLC "
+         "(TermAlgebra!Variant via JudgeTerms) decides (a) parsed term = AST, (b) re-parsed term = parsed term. Totality: "
+         "token-level mutations (delete, duplicate, swap, insert, replace, truncate) of generated programs and of printed terms "
+         "must parse or raise a ProbLogError subclass.",
+    design_ref="DESIGN.md §5 C17", note=_TERM_NOTE + " Totality over all strings is approximated by structured token mutations.",
+    technique="TLA+ term equality up to renaming (TermAlgebra.tla) evaluated by TLC on recorded parse/print/parse round trips")
+
 NOT_YET = "check not built yet in this round (planned in DESIGN.md §5); not claimed"
 NOT_APPLICABLE = {}
